@@ -326,6 +326,22 @@ reg(
 )
 
 
+reg(
+    "C12",
+    "other",
+    "Structural clauses of the line index: the three line-break helpers are evaluated from MIR on every (byte, neighbour | end) window against the LF / CR / CRLF rule, and "
+    "LineIndex::build obtains break widths only through that shared rule (CLASS + REACH); within the query code every comparison between an index line start and the "
+    "query offset uses one relation (CMPCONSIST: the forward walk's `next_start <= query`), so cached and returned lines cannot disagree at a line's first byte. "
+    "Equality of the forward walk / predecessor search with the naive scan on all histories is not decided.",
+    [
+        only_cfgs(_lazy("linesrules", "rule_line_break_class"), ["cli"]),
+        only_cfgs(_lazy("linesrules", "rule_cmp_consistency"), ["cli"]),
+    ],
+    quick=["cli"],
+    technique="finite-domain evaluation of line-break helper MIR; contradiction (one-sided comparison) rule over MIR comparisons",
+)
+
+
 def run(pid, tier, only=None, replay=None):
     if pid not in REGISTRY:
         print("property %s is not claimed (see MANIFEST.not_applicable)" % pid)
